@@ -769,7 +769,7 @@ class Gen:
         d = self.d
         n = self.control_line(kw, env, depth, fn, allow_long=room >= 5)
         left = room - n
-        if kw == "while" and left >= 1 and d.bool(0.08):
+        if kw == "while" and left >= 1 and d.bool(0.15):
             self.tag("while-empty")
             self.emit(TABS(depth + 1) + [Lx(";", "semi")], "stmt", depth + 1, fn, info={"stmt": "empty"})
             return n + 1
@@ -821,7 +821,9 @@ class Gen:
             elif k == "array":
                 name = self.fresh("var")
                 env.ptrs.append(name)
-                size = [Lx(d.choice(self.macros), "id", ("macro",))] if self.macros and d.bool(0.4) else [Lx(str(d.int(1, 512)), "num", ("const:dec",))]
+                # (a macro of the file, or one that an included header is assumed to provide)
+                size = [Lx(d.choice(self.macros) if self.macros and d.bool(0.6) else d.choice(["BUFFER_SIZE", "PATH_MAX", "OPEN_MAX"]), "id", ("macro",))] \
+                    if d.bool(0.4) else [Lx(str(d.int(1, 512)), "num", ("const:dec",))]
                 if d.bool(0.12):
                     size = [Lx("'z'", "chr"), SP(), Lx("-", "op", ("binop", "binop:-")), SP(), Lx("'a'", "chr"), SP(), Lx("+", "op", ("binop", "binop:+")), SP(),
                             Lx("1", "num", ("const:dec",))]
